@@ -14,7 +14,9 @@ use lightning::util::config::UserConfig;
 use lightning::util::hash_tables::new_hash_map;
 use lightning::util::ser::{ReadableArgs, Writeable};
 use lightning::util::test_channel_signer::TestChannelSigner;
-use lightning::util::test_utils::{TestChainSource, TestFeeEstimator, TestKeysInterface};
+use lightning::events::bump_transaction::sync::BumpTransactionEventHandlerSync;
+use lightning::util::wallet_utils::WalletSync;
+use lightning::util::test_utils::{TestChainSource, TestFeeEstimator, TestKeysInterface, TestWalletSource};
 use std::collections::BTreeMap;
 use std::sync::Arc;
 
@@ -41,7 +43,16 @@ pub type CM = ChannelManager<
 	Arc<McLogger>,
 >;
 
+pub type Bumper = BumpTransactionEventHandlerSync<
+	Arc<McBroadcaster>,
+	Arc<WalletSync<Arc<TestWalletSource>, Arc<McLogger>>>,
+	Arc<TestKeysInterface>,
+	Arc<McLogger>,
+>;
+
 pub struct McNode {
+	pub wallet: Arc<TestWalletSource>,
+	pub bumper: Bumper,
 	pub tag: u8,
 	pub id: PublicKey,
 	pub keys: Arc<TestKeysInterface>,
@@ -115,7 +126,18 @@ impl McNode {
 		));
 		let id = cm.get_our_node_id();
 		let durable_manager = cm.encode();
+		let mut wk = [0x55u8; 32];
+		wk[0] = tag;
+		let wallet = Arc::new(TestWalletSource::new(bitcoin::secp256k1::SecretKey::from_slice(&wk).unwrap()));
+		let bumper = BumpTransactionEventHandlerSync::new(
+			parts.bc.clone(),
+			Arc::new(WalletSync::new(wallet.clone(), logger.clone())),
+			keys.clone(),
+			logger.clone(),
+		);
 		McNode {
+			wallet,
+			bumper,
 			tag,
 			id,
 			keys,
